@@ -94,6 +94,23 @@ pub open spec fn mask_ok(r: int) -> bool {
     r >= ipow(2, 320)
 }
 
+/// C19 (sized to the secret): the blinding term exceeds challenge * secret (challenge < 2^(2t), secret < 2^secret_bits)
+/// by 64 bits, so neither response / challenge nor a ratio of responses is within 2^64 of the secret
+pub open spec fn dominates(r: int, secret_bits: nat, t: nat) -> bool {
+    r >= ipow(2, secret_bits + 2 * t + 64)
+}
+
+/// a value of exactly `secret_bits + 2t + lin` bits masks and dominates (lin >= 65, at least 321 bits)
+pub proof fn lemma_blinding(secret_bits: nat, t: nat, lin: nat)
+    requires lin >= 65, secret_bits + 2 * t + lin >= 321,
+    ensures
+        ipow(2, 320) <= ipow(2, (secret_bits + 2 * t + lin - 1) as nat),
+        ipow(2, secret_bits + 2 * t + 64) <= ipow(2, (secret_bits + 2 * t + lin - 1) as nat),
+{
+    lemma_ipow2_mono(320, (secret_bits + 2 * t + lin - 1) as nat);
+    lemma_ipow2_mono(secret_bits + 2 * t + 64, (secret_bits + 2 * t + lin - 1) as nat);
+}
+
 pub proof fn lemma_ipow2_mono(a: nat, b: nat)
     requires a <= b,
     ensures ipow(2, a) <= ipow(2, b),
